@@ -715,3 +715,92 @@ Proof.
       destruct (seen_of_hfinal (entry_http fx proxy file c o (XPanic v))); reflexivity.
   - destruct sc as [hs cause|v|p]; [reflexivity | reflexivity | contradiction].
 Qed.
+
+(** ** corollaries in the form of DESIGN 4: outside the guards, the full statement *)
+Theorem entry_points_meet_spec fx file c o nv sc :
+  oracle_ok nv o = true ->
+  xguard_F1 fx sc = false -> xguard_F2 (loaded fx file c) sc = false ->
+  xguard_F4 fx file c (d_classes (demand_of sc)) = false ->
+  (forall proxy, match sc with XProxy _ => proxy = true | _ => True end ->
+     seen_ok c nv (hyp_never_success c sc) (demand_of sc) (seen_of_hfinal (entry_http fx proxy file c o sc)) = true) /\
+  match sc with
+  | XProxy _ => True
+  | _ => seen_ok c nv (hyp_never_success c sc) (demand_of sc) (seen_of_gfinal (entry_grpc fx file c o sc)) = true /\
+         (forall proxy, same_reply (seen_of_hfinal (entry_http fx proxy file c o sc))
+                                   (seen_of_gfinal (entry_grpc fx file c o sc)) = true) /\
+         entry_http fx true file c o sc = entry_http fx false file c o sc
+  end.
+Proof.
+  intros OK G1 G2 G4.
+  assert (W : xwaiver fx file c sc = no_waiver) by (unfold xwaiver; rewrite G1, G2, G4; reflexivity).
+  split.
+  - intros proxy HX. unfold seen_ok. rewrite <- W. apply http_entry_meets_spec; assumption.
+  - destruct sc as [hs cause|v|p]; [| |exact I].
+    + split; [unfold seen_ok; rewrite <- W; apply grpc_entry_meets_spec; [assumption | exact I]|].
+      split; [intro proxy; apply (entries_same fx proxy file c o _ G2 I) | apply (entries_same fx false file c o _ G2 I)].
+    + split; [unfold seen_ok; rewrite <- W; apply grpc_entry_meets_spec; [assumption | exact I]|].
+      split; [intro proxy; apply (entries_same fx proxy file c o _ G2 I) | apply (entries_same fx false file c o _ G2 I)].
+Qed.
+
+(** the handler list of a rule never swallows a failure, and what it leaves is of the demanded kind *)
+Theorem handlers_never_swallow hs cause :
+  exists e, final_error (run_handlers hs cause) = Some e /\
+            d_classes (demand_of (XFail hs cause)) = [spec_class e].
+Proof.
+  destruct (run_handlers_final hs cause) as (e & E). exists e. split; [exact E|].
+  rewrite (run_handlers_class hs cause e E). simpl. destruct (first_applicable hs); reflexivity.
+Qed.
+
+(** ** the entry-point level model extends the one of C12/Model.v (on which C01 builds) *)
+Theorem stack_extends_model c o sc :
+  x_http_respond false c o (x_of sc) = http_respond c o sc /\
+  x_http_respond true c o (x_of sc) = http_respond c o sc /\
+  x_grpc_respond c o (x_of sc) = grpc_respond c o sc.
+Proof.
+  destruct sc as [e|m cause|v]; simpl.
+  - repeat split; reflexivity.
+  - unfold x_http_respond, x_grpc_respond, http_respond, grpc_respond. simpl.
+    unfold x_exec. simpl. destruct m as [|code to|realm]; repeat split; reflexivity.
+  - repeat split; reflexivity.
+Qed.
+
+(** ** C12-F4: the guard is needed *)
+Definition f4_cfg := {| c_verbose := false; ov_authn := 0; ov_authz := 0; ov_comm := 0; ov_precond := 418;
+                        ov_norule := 0; ov_internal := 0 |}.
+Definition free_view := {| nv_free := true; nv_allowed := []; nv_other := [] |}.
+Definition f4_sc := XFail [] (Chain [Sentinel KArgument] false).
+Definition unrepaired := {| fx1 := false; fx4 := false |}.
+
+Theorem F4_refuted :
+  xguard_F4 unrepaired true f4_cfg (d_classes (demand_of f4_sc)) = true /\
+  xguard_F1 unrepaired f4_sc = false /\ xguard_F2 (loaded unrepaired true f4_cfg) f4_sc = false /\
+  oracle_ok free_view any_oracle = true /\
+  seen_ok f4_cfg free_view (hyp_never_success f4_cfg f4_sc) (demand_of f4_sc)
+          (seen_of_hfinal (entry_http unrepaired false true f4_cfg any_oracle f4_sc)) = false /\
+  seen_ok f4_cfg free_view (hyp_never_success f4_cfg f4_sc) (demand_of f4_sc)
+          (seen_of_gfinal (entry_grpc unrepaired true f4_cfg any_oracle f4_sc)) = false /\
+  (* the configuration struct filled directly, or the repaired loader: 418 *)
+  seen_ok f4_cfg free_view (hyp_never_success f4_cfg f4_sc) (demand_of f4_sc)
+          (seen_of_hfinal (entry_http unrepaired false false f4_cfg any_oracle f4_sc)) = true /\
+  seen_ok f4_cfg free_view (hyp_never_success f4_cfg f4_sc) (demand_of f4_sc)
+          (seen_of_hfinal (entry_http {| fx1 := false; fx4 := true |} false true f4_cfg any_oracle f4_sc)) = true.
+Proof. vm_compute. repeat split; reflexivity. Qed.
+
+(** the hypotheses of [entry_points_meet_spec] are satisfiable by a non-trivial input: a rule whose
+    first handler (www_authenticate, condition false) does not apply and whose second one redirects,
+    configuration from a file, an authorization failure wrapped three levels deep *)
+Example nonvacuous_entry :
+  let c := {| c_verbose := true; ov_authn := 0; ov_authz := 470; ov_comm := 0; ov_precond := 0;
+              ov_norule := 0; ov_internal := 503 |} in
+  let cause := Chain [Sentinel KInternal; WrapW (JoinW [Foreign 5%nat; Chain [Sentinel KAuthorization] true])] false in
+  let sc := XFail [ {| x_applies := false; x_mech := MWWW "r"; x_conf := WcNone |};
+                    {| x_applies := true; x_mech := MRedirect 307 (Some "http://idp/login"%string); x_conf := WcNone |} ] cause in
+  let nv := {| nv_free := false; nv_allowed := [Html]; nv_other := [] |} in
+  oracle_ok nv any_oracle = false /\
+  oracle_ok nv (ne_always {| o_neg_http := Some Html; o_neg_grpc := Some Html; o_json_ne := true; o_xml_ne := true; o_plain_ne := true |}) = true /\
+  xguard_F1 unrepaired sc = false /\ xguard_F2 (loaded unrepaired true c) sc = false /\
+  xguard_F4 unrepaired true c (d_classes (demand_of sc)) = false /\
+  demand_of sc = {| d_classes := [ClRedirect 307 "http://idp/login"]; d_realm := None; d_hard := false |} /\
+  entry_http unrepaired true true c any_oracle sc =
+    HFinal 307 {| h_location := Some "http://idp/login"%string; h_www := None; h_ctype := None |} false.
+Proof. vm_compute. repeat split; reflexivity. Qed.
